@@ -16,6 +16,13 @@ KEYS = ["x", "y", "z", "k1", "k2"]
 VALS = ["v", "a b", "", "12", "x=y", "v\n w", "true", "No", "v\n w\n\tx y", "0x10"]
 FILES = ["/f1.conf", "/f2.conf", "/usr/etc/cfg.conf", "/etc/cfg.conf", "/usr/etc/cfg.conf.d/a.conf", "/usr/etc/cfg.conf.d/b.conf",
          "/etc/cfg.conf.d/a.conf", "/etc/cfg.conf.d/c.conf", "/usr/etc/cfg.conf.d/note.txt"]
+# trees of the general econf_readConfig (root prefix = the history's scratch directory): vendor / run / etc with and without a
+# project directory, default and alternative drop-in directories, the project's own <project>.d
+FILES_CFG = ["/usr/lib/prj/cfg.conf", "/usr/lib/prj/cfg.conf.d/a.conf", "/run/prj/cfg.conf.d/a.conf", "/run/prj/cfg.conf.d/r.conf", "/etc/prj/cfg.conf",
+             "/etc/prj/cfg.conf.d/z.conf", "/etc/prj/cfg.d/alt.conf", "/etc/prj/cfg/conf.d/deep.conf", "/usr/lib/cfg.conf", "/etc/cfg.conf.d/c.conf",
+             "/usr/lib/prj.d/p1.conf", "/etc/prj.d/p1.conf", "/etc/prj.d/p2.conf", "/etc/prj.conf", "/p1/cfg.conf", "/p2/cfg.conf.d/x.conf", "/p2/cfg.d/y.conf",
+             "/usr/etc/cfg/alt.d/q.conf", "/etc/cfg.d/y.conf"]
+INTTYPES = {"Int": (-2**31, 2**31 - 1), "Int64": (-2**63, 2**63 - 1), "UInt": (0, 2**32 - 1), "UInt64": (0, 2**64 - 1)}
 
 
 def opt(s):
@@ -63,7 +70,7 @@ class Mixed:
 
     def op_file(self):
         from gen import gram
-        f = self.r.choice(FILES)
+        f = self.r.choice(FILES + (FILES_CFG if self.ops is None or "readconfig" in self.ops else []))
         g = gram.random_file(self.r, self.r.randint(1, 8), self.optmode, self.bad_rate, D="=", C="#")
         self.files.add(f)
         # framing (Parser.tla FileBytes): the final newline is optional and means nothing
@@ -101,6 +108,103 @@ class Mixed:
         self.script.append("onerr_free %d" % h)
         self.conv.append(None)
         self.live.add(h)
+
+    # ---- the general econf_readConfig: option string, project, config name (or none: <project>.d), drop-in directory lists ----
+    def op_readconfig(self, h):
+        r = self.r
+        items = []     # (text, abstract item)
+        if r.random() < 0.75:
+            items.append(("ROOT_PREFIX=" + self.R, {"name": "ROOT", "arg": []}))            # paths of the trace are relative to the scratch root
+        if r.random() < 0.25:
+            dirs = r.sample(["/p1", "/p2", "/etc/prj", "/usr/lib/prj"], r.randint(1, 3))
+            items.append(("PARSING_DIRS=" + ":".join(self.R + d for d in dirs), {"name": "PDIRS", "arg": [codes(d) for d in dirs]}))
+        if r.random() < 0.3:
+            posts = r.sample([".conf.d", ".d", "/conf.d", ".nothing.d"], r.randint(1, 3))
+            items.append(("CONFIG_DIRS=" + ":".join(posts), {"name": "CDIRS", "arg": [codes(x) for x in posts]}))
+        if r.random() < 0.3:
+            v = r.choice([0, 1])
+            items.append(("JOIN_SAME_ENTRIES=%d" % v, {"name": "JOIN", "arg": v}))
+        if r.random() < 0.1 and self.optmode == "none":
+            items.append(("PYTHON_STYLE=0", {"name": "PYTHON", "arg": 0}))
+        if r.random() < 0.3 and items:
+            items.append(r.choice(items))                                                  # an item given twice: the last one counts
+        r.shuffle(items)
+        if r.random() < 0.05:
+            items.insert(r.randrange(len(items) + 1), ("NO_SUCH_OPTION=1", {"name": "BAD", "arg": 0}))
+        # without ROOT_PREFIX and PARSING_DIRS the real /usr/lib, /run, /etc would be read: always give one of them
+        if not any(a["name"] in ("ROOT", "PDIRS") for _, a in items):
+            items.append(("ROOT_PREFIX=" + self.R, {"name": "ROOT", "arg": []}))
+        self.add("newopt %d %s" % (h, hx(";".join(t for t, _ in items))),
+                 lambda ev, root, h=h, items=items: [{"e": "newopt", "h": h if ev["rc"] == "ECONF_SUCCESS" else 0, "items": [a for _, a in items], "rc": ev["rc"]}])
+        # (a refused option string leaves no object: the read that follows then starts from NULL and is not predicted)
+        prj = r.choice(["prj", "prj", None])
+        name = r.choice(["cfg", "cfg", "cfg", None, ""]) if prj else "cfg"
+        usr = r.choice(["/usr/lib", "/usr/lib", None, "/usr/etc"])
+        sfx = r.choice(["conf", ".conf", "conf"])       # (no suffix: every directory entry counts, "." and ".." included - C12 checks that case)
+        self.add("readconfig %d %s %s %s %s x3d x23" % (h, hx(prj), hx(usr), hx(name), hx(sfx)),
+                 lambda ev, root, h=h, prj=prj, usr=usr, name=name, sfx=sfx: [{"e": "readconfig", "h": h if ev["rc"] == "ECONF_SUCCESS" else 0, "hin": h, "cb": False,
+                                                                              "project": opt(prj), "usr": opt(usr), "name": opt(name), "sfx": codes(sfx or ""),
+                                                                              "delim": [61], "comment": [35], "rc": ev["rc"]}] +
+                 # a failed read leaves the caller's option object in place; the script releases it right away (onerr_free)
+                 ([] if ev["rc"] == "ECONF_SUCCESS" else [{"e": "free", "h": h, "ret_null": True}]))
+        self.script.append("onerr_free %d" % h)
+        self.conv.append(None)
+        self.live.add(h)
+
+    def op_readhist(self, h0):
+        sfx = self.r.choice(["conf", ".conf"])
+        self.add("readhist %d %s %s %s %s x3d x23" % (h0, hx(self.R + "/usr/etc"), hx(self.R + "/etc"), hx("cfg"), hx(sfx)),
+                 lambda ev, root, h0=h0, sfx=sfx: [{"e": "readhist", "hs": list(range(h0, h0 + ev["n"])), "cb": False, "dirs": [codes("/usr/etc"), codes("/etc")], "name": codes("cfg"),
+                                                  "sfx": codes(sfx), "delim": [61], "comment": [35], "rc": ev["rc"]}])
+        for k in range(h0, h0 + 10):
+            self.add("dumpx %d" % k, lambda ev, root, k=k: [] if ev["st"] is None else [{"e": "dump", "h": k, "isnull": False, "st": dump_st(ev, self.comments), "cmp_comments": self.comments,
+                                                                                         "path": codes(self.rel(ev["st"]["path"], root))}])
+        for k in range(h0, h0 + 10):
+            self.add("free %d" % k, lambda ev, root, k=k: [{"e": "free", "h": k, "ret_null": ev["ret_null"]}])
+
+    def op_setconfdirs(self):
+        posts = self.r.choice([[], [".conf.d", "/alt.d"], [".d"], [".conf.d"], ["/alt.d", ".d", ".conf.d"]])
+        self.add("setconfdirs " + " ".join(hx(x) for x in posts), lambda ev, root, posts=posts: [{"e": "setconfdirs", "dirs": [codes(x) for x in posts]}])
+
+    def op_keys(self, h):
+        g = self.r.choice(SECS)
+        self.add("keys %d %s" % (h, hx(g)), lambda ev, root, h=h, g=g: [{"e": "keys", "h": h, "g": opt(g), "rc": ev["rc"], "out": [codes(x) for x in (ev.get("out") or [])]}])
+
+    def op_groups(self, h):
+        self.add("groups %d" % h, lambda ev, root, h=h: [{"e": "groups", "h": h, "rc": ev["rc"], "out": [codes(x) for x in (ev.get("out") or [])]}])
+
+    def op_settyped(self, h):
+        g, k = self.r.choice(SECS), self.r.choice(KEYS)
+        if self.r.random() < 0.3:
+            v = self.r.choice(["yes", "No", "TRUE", "false", "1", "0", "on", "maybe", "tRuE"])
+            self.add("set Bool %d %s %s %s" % (h, hx(g), hx(k), hx(v)),
+                     lambda ev, root, h=h, g=g, k=k, v=v: [{"e": "set", "T": "Bool", "h": h, "g": opt(g), "k": opt(k), "v": opt(v), "neg": False, "mag": [0], "rc": ev["rc"]}])
+            return
+        T = self.r.choice(sorted(INTTYPES))
+        lo, hi = INTTYPES[T]
+        n = self.r.choice([lo, hi, 0, 1, -1 if lo < 0 else 7, self.r.randint(lo, hi)])
+        self.add("set %s %d %s %s %d" % (T, h, hx(g), hx(k), n),
+                 lambda ev, root, h=h, g=g, k=k, n=n, T=T: [{"e": "set", "T": T, "h": h, "g": opt(g), "k": opt(k), "v": [], "neg": n < 0, "mag": [int(c) for c in str(abs(n))], "rc": ev["rc"]}])
+
+    def op_gettyped(self, h):
+        g, k = self.r.choice(SECS), self.r.choice(KEYS)
+        T = self.r.choice(sorted(INTTYPES) + ["Bool"])
+
+        def conv(ev, root, h=h, g=g, k=k, T=T):
+            e = {"e": "get", "T": T, "h": h, "g": opt(g), "k": opt(k), "rc": ev["rc"], "isdef": False, "out": [], "neg": False, "mag": [0], "mag8": [0], "mag16": [0], "bool": False}
+            if ev["rc"] == "ECONF_SUCCESS":
+                if T == "Bool":
+                    e["bool"] = ev["out"] == 1
+                else:
+                    v = int(ev["out"])
+                    e["neg"], e["mag"] = v < 0, [int(c) for c in str(abs(v))]
+                    e["mag8"], e["mag16"] = [int(c, 8) for c in "%o" % abs(v)], [int(c, 16) for c in "%x" % abs(v)]
+            return [e]
+        self.add("get %s %d %s %s" % (T, h, hx(g), hx(k)), conv)
+
+    def op_settags(self, h):
+        d, c = self.r.choice(["=", ":", " "]), self.r.choice(["#", ";"])
+        self.add("settags %d %s %s" % (h, hx(d), hx(c)), lambda ev, root, h=h, d=d, c=c: [{"e": "settag", "h": h, "which": "d", "tag": ord(d)}, {"e": "settag", "h": h, "which": "c", "tag": ord(c)}])
 
     def errloc(self):
         if not self.with_errloc:
@@ -151,6 +255,25 @@ class Mixed:
             live = sorted(self.live)
             x = self.r.random()
             free = [h for h in range(1, 7) if h not in self.live]
+            y = self.r.random()
+            # the calls the root specification learnt for the repository's test programs (options, general readConfig, history,
+            # process-wide drop-in directory list, typed access, listings, tags)
+            if y < 0.30 and (self.ops is None or self.ops & {"readconfig", "typed", "listings", "confdirs", "readhist", "tags"}):
+                z = self.r.random()
+                if z < 0.25 and free and allow("readconfig"):
+                    self.op_readconfig(free[0]); continue
+                if z < 0.32 and allow("readhist"):
+                    self.op_readhist(20); continue
+                if z < 0.40 and allow("confdirs"):
+                    self.op_setconfdirs(); continue
+                if z < 0.55 and live and allow("typed"):
+                    self.op_settyped(self.r.choice(live)); continue
+                if z < 0.75 and live and allow("typed"):
+                    self.op_gettyped(self.r.choice(live)); continue
+                if z < 0.90 and live and allow("listings"):
+                    (self.op_keys if self.r.random() < 0.6 else self.op_groups)(self.r.choice(live)); continue
+                if live and allow("tags"):
+                    self.op_settags(self.r.choice(live)); continue
             if x < 0.12:
                 self.op_file()
             elif x < 0.24 and free and allow("read"):
@@ -159,6 +282,8 @@ class Mixed:
                 self.op_readdirs(free[0])
             elif x < 0.37 and free and allow("readconfig_opt"):
                 self.op_readconfig_opt(free[0])
+            elif x < 0.45 and free and self.ops is not None and "readconfig" in self.ops:
+                self.op_readconfig(free[0])
             elif x < 0.38 and free and allow("new"):
                 self.op_new(free[0])
             elif x < 0.58 and live and allow("set"):
@@ -178,6 +303,9 @@ class Mixed:
             self.op_dump(h)
         for h in sorted(self.live):
             self.op_free(h)
+        if self.ops is None or "confdirs" in self.ops:
+            self.script.append("setconfdirs")
+            self.conv.append(lambda ev, root: [])
         return self
 
     def events(self, evs, root):
@@ -196,13 +324,15 @@ class Mixed:
 
 
 OPS = {   # every property exercises the root specification with the calls IT talks about (no misattributed alarms)
-    "C11": {"read", "new", "set", "get"},
+    "C11": {"read", "new", "set", "get", "typed", "listings"},
     "C10": {"read", "new", "set", "get"},
-    "C07": {"read", "new", "set", "get", "write"},
+    "C07": {"read", "new", "set", "get", "write", "tags", "typed"},
     "C03": {"read", "new", "set", "get", "merge"},
-    "C01": {"readdirs", "get"},
+    "C01": {"readdirs", "readconfig", "confdirs", "get"},
     "C13": {"read", "readdirs"},
-    "C15": {"readconfig_opt", "get"},
+    "C15": {"readconfig_opt", "readconfig", "get"},
+    "C09": {"read", "new", "set", "typed"},
+    "C12": {"readdirs", "readhist", "confdirs", "get"},
     "ALL": None,
 }
 
